@@ -5440,7 +5440,7 @@ class Frame(ContainerOperand):
         # For data fields, we add the field name, not the field values, to the columns.
         columns_name = tuple(columns_fields)
         if len(data_fields) > 1 or not columns_fields: # if no columns_fields, have to add values label
-            columns_name = tuple(chain(*columns_fields, ('values',)))
+            columns_name = tuple(chain(columns_fields, ('values',)))
         if len(func_map) > 1:
             columns_name = columns_name + ('func',)
 
